@@ -8,7 +8,7 @@ Next ==
   /\ LET e == Rec[i'] IN
        /\ Judge(i', << <<"Len", MonLen(e.post)>>, <<"Distinct", MonDistinct(e.post)>>,
                        <<"Sorted", MonSorted(e.post)>>, <<"Latest", MonLatest(e.post)>>,
-                       <<"LeftOff", MonLeftOff(e.post)>>,
+                       <<"LeftOff", MonLeftOff(e.post)>>, <<"TopWhileNotFull", MonTopWhileNotFull(e.post)>>,
                        <<"EndNotEarlier", MonEndNotEarlier(e)>>, <<"EndCapped", MonEndCapped(e)>> >>)
        /\ Drift(i', Conforms(e), e.op)
 Spec == Init /\ [][Next]_i
